@@ -267,6 +267,67 @@ def _compare(res, rname, key, got, want, case, atom, seg):
         res.maximum("abs_err", float(err.max()))
 
 
+# ------------------------------------------------------------------------------ E1: one weights object, many molecules
+_INST_MOLS = {
+    "A": (np.array([6, 1, 8, 86]), "generic"), "B": (np.array([86, 8, 1, 6]), "generic"), "C": (np.array([1, 1, 1, 1]), "collinear"),
+    "D": (np.array([8, 36]), "close-pair"), "E": (np.array([2, 10, 85, 6, 1]), "generic"),
+}
+
+
+class InstanceWorld:
+    """ONE BeckeWeights object reused for different molecules and routes (a hidden per-instance cache
+    of radii / cell-function parameters must not leak from one molecule into the next).  Every result
+    is compared with the plain-loop reference for that molecule."""
+
+    def __init__(self, seed, order=3):
+        from grid.becke import BeckeWeights
+
+        self.seed, self.order = seed, order
+        self.bw = BeckeWeights(order=order)
+        self.table = bragg()
+        self.violations = []
+        self.hist = []
+
+    def enabled(self):
+        return [(m, r) for m in _INST_MOLS for r in ("call", "generate", "atom")]
+
+    def apply(self, ev):
+        mname, route = ev
+        atnums, gname = _INST_MOLS[mname]
+        coords = GEOMS[gname][: len(atnums)]
+        pts = point_set(coords, self.seed)[:14]
+        W = ref_weights(pts, coords, atnums, self.order, self.table)
+        idx = np.linspace(0, len(pts), len(atnums) + 1).astype(int)
+        owner = np.zeros(len(pts), dtype=int)
+        for a in range(len(atnums)):
+            owner[idx[a]:idx[a + 1]] = a
+        with warnings.catch_warnings():
+            warnings.simplefilter("ignore")
+            if route == "call":
+                got, want = self.bw(pts, coords, atnums, idx), W[owner, np.arange(len(pts))]
+            elif route == "generate":
+                got, want = self.bw.generate_weights(pts, coords, atnums, select=len(atnums) - 1), W[-1]
+            else:
+                got, want = self.bw.compute_atom_weight(pts, coords, atnums, 0), W[0]
+        if np.max(np.abs(np.asarray(got) - want)) > TOL:
+            self.violations.append((f"instance-reuse:{route}:differs-from-definition",
+                                    f"{route} on molecule {mname} after {self.hist} on the same BeckeWeights object deviates from the "
+                                    f"definition by {np.max(np.abs(np.asarray(got) - want)):.2e}", {}))
+        self.hist.append(tuple(ev))
+        import hashlib
+
+        return hashlib.sha1(np.round(np.asarray(got, dtype=float), 13).tobytes()).hexdigest()[:12]
+
+    def canon(self):
+        """The object's visible state (its attribute dictionary, radii table included) plus the set of
+        molecules it has been used on: a leaking cache could only depend on those."""
+        import hashlib
+
+        attrs = sorted(vars(self.bw))
+        rad = hashlib.sha1(repr(sorted((k, round(float(v), 12) if v == v else None) for k, v in self.bw._radii.items())).encode()).hexdigest()[:8]
+        return (tuple(attrs), rad, tuple(sorted({m for m, _ in self.hist})))
+
+
 def hirshfeld(ctx):
     import os
 
@@ -343,12 +404,21 @@ def run(ctx):
             res["samples"] = []
         ctx.merge(res)
     ctx.guarded("hirshfeld", hirshfeld, ctx)
+    from vf import explore
+
+    st = explore.explore(ctx, "vf.props.c06:InstanceWorld", 3 if ctx.thorough else 2, params={"order": 3}, twice_every=9, fresh_every=0,
+                         section="instance-reuse")
+    ctx.cov["instance_reuse_exploration"] = {k: st[k] for k in ("states", "transitions", "depth_completed")}
     ctx.cov["configurations"] = len(jobs)
     ctx.cov["elements"] = list(ELEMENTS)
     ctx.exhaustive = True
 
 
 def replay(ctx, case):
+    if "history" in case:
+        from vf import explore
+
+        return explore.replay_history(ctx, case)
     if case.get("route") == "hirshfeld":
         return hirshfeld(ctx)
     ctx.merge(_config((case["geometry"], tuple(case["atnums"]), case["order"], ctx.seed, True)))
